@@ -568,6 +568,50 @@ func ruleLateFrames(p *Prog, r *Out) {
 	} else {
 		r.bad("the closed-stream memory keeps who reset the stream", pos, "markClosed no longer found")
 	}
+	// a stream the loop resets off the frame path (the request timer) is reset
+	// before it is closed: closing is what hands the reset mark to the memory
+	ast.Inspect(hs.Body, func(n ast.Node) bool {
+		cc, ok := n.(*ast.CommClause)
+		if !ok {
+			return true
+		}
+		// the timer arm only: on the frame path the stream is closed at the bottom
+		// of the iteration, after everything that can reset it
+		if cc.Comm == nil || !strings.Contains(squash(p.text(cc.Comm)), "<-sc.maxRequestTimer.C") {
+			return true
+		}
+		ast.Inspect(cc, func(m ast.Node) bool {
+			blk, ok := m.(*ast.BlockStmt)
+			if !ok {
+				return true
+			}
+			rs, cl := -1, -1
+			recv := ""
+			for i, s := range blk.List {
+				es, ok := s.(*ast.ExprStmt)
+				if !ok {
+					continue
+				}
+				c, ok := es.X.(*ast.CallExpr)
+				if !ok {
+					continue
+				}
+				if p.calleeOf(c) == "(*serverConn).resetStream" && len(c.Args) == 2 {
+					rs, recv = i, p.text(c.Args[0])
+				}
+				if p.text(c.Fun) == "closeStream" && len(c.Args) == 1 && cl < 0 {
+					if recv == "" || p.text(c.Args[0]) == recv {
+						cl = i
+					}
+				}
+			}
+			if rs >= 0 && cl >= 0 {
+				r.check(rs < cl, "a timed-out stream is reset before it is closed", p.pos(blk.Pos()), "resetStream(x, ...) ... closeStream(x)", "the request timer closes the stream before it resets it: the closed-stream memory is told the peer closed it, so the DATA or trailers the peer had on the way are answered with GOAWAY(STREAM_CLOSED) instead of being ignored")
+			}
+			return true
+		})
+		return false
+	})
 	if cs != nil {
 		okc := false
 		inspectCalls(cs, func(c *ast.CallExpr) {
